@@ -538,7 +538,8 @@ enum {
 	Q_SURVEY0 = 0, // + peer*2 + extra hop words (0..1)
 	Q_RECV0   = 4, // + ctx
 	Q_SEND0   = 6, // + ctx
-	Q_N       = 8
+	Q_DROP0   = 8, // surveyor 0 disconnects, a new one takes its place
+	Q_N       = 9
 };
 
 typedef struct surv { // a survey frame written by a raw surveyor
@@ -553,11 +554,13 @@ typedef struct rctx {
 	uint8_t bt[8];
 	int     btlen;
 	int     pending; // aio receive outstanding
+	int     gone;    // the surveyor whose survey we hold has disconnected
 } rctx;
 
 static int g_resp_nb; // responses are sent with NNG_FLAG_NONBLOCK
 
 static nng_socket Q_sock;
+static nng_listener Q_listener;
 static nng_ctx    Q_ctx[2];
 static int        Q_fd[2];
 static vp_rd     *Q_rd[2];
@@ -573,7 +576,9 @@ resp_lname(int l)
 	static char b[4][40];
 	static int  r;
 	char       *o = b[r++ & 3];
-	if (l < Q_RECV0)
+	if (l == Q_DROP0)
+		snprintf(o, 40, "p0.reconnect");
+	else if (l < Q_RECV0)
 		snprintf(o, 40, "p%d.survey(hops%d)", l / 2, 1 + l % 2);
 	else if (l < Q_SEND0)
 		snprintf(o, 40, "ctx%d.recv", l - Q_RECV0);
@@ -587,7 +592,7 @@ undelivered(void)
 {
 	int n = 0;
 	for (int i = 0; i < NSV; i++)
-		n += !SV[i].delivered;
+		n += (SV[i].delivered == 0);
 	return n;
 }
 
@@ -603,9 +608,10 @@ on_survey(int i, nng_msg *msg)
 		    "surveyor wrote",
 		    seq, i, vh_hex(b, n));
 	surv *s = &SV[b[1]];
-	if (s->delivered)
+	if (s->delivered == 1)
 		vs_fail("C07:resp:duplicate-survey",
 		    "[%s] survey #%d was delivered twice", seq, b[1]);
+	C[i].gone    = s->delivered == 2; // its surveyor already left
 	s->delivered = 1;
 	C[i].has     = 1;
 	C[i].peer    = s->peer;
@@ -693,6 +699,7 @@ run_resp(void *arg)
 	Q_fd[0] = vp_connect_raw(Q_sock, SP_SURVEYOR, &l);
 	if (Q_fd[0] < 0)
 		vs_fail("harness:setup", "raw surveyor 0 could not connect");
+	Q_listener = l;
 	Q_fd[1] = vp_attach_more(l);
 	vs_settle();
 	if (Q_fd[1] < 0 || vp_handshake(Q_fd[1], SP_SURVEYOR) < 0)
@@ -704,12 +711,36 @@ run_resp(void *arg)
 		VH_OK(nng_aio_alloc(&QA[i].aio, raio_cb, &QA[i]));
 		VH_OK(nng_aio_alloc(&QS[i].aio, raio_cb, &QS[i]));
 	}
-	int total = g_prefix_len + g_depth;
+	// epilogue: every context answers (or tries to) twice - the second
+	// send never has a pending survey and must fail NNG_ESTATE
+	static const int EPI[4] = { Q_SEND0, Q_SEND0, Q_SEND0 + 1, Q_SEND0 + 1 };
+	int total = g_prefix_len + g_depth + 4;
 	for (int step = 0; step < total; step++) {
-		int l2 = step < g_prefix_len ? g_prefix[step] : vs_choose(VK_ENV, Q_N);
+		int l2 = step < g_prefix_len ? g_prefix[step]
+		    : step < g_prefix_len + g_depth
+		    ? vs_choose(VK_ENV, Q_N)
+		    : EPI[step - g_prefix_len - g_depth];
 		snprintf(seq + strlen(seq), sizeof(seq) - strlen(seq), "%s%s",
 		    step ? " " : "", resp_lname(l2));
-		if (l2 < Q_RECV0) {
+		if (l2 == Q_DROP0) {
+			close(Q_fd[0]);
+			vs_settle();
+			for (int k = 0; k < NSV; k++)
+				if (SV[k].peer == 0 && SV[k].delivered == 0)
+					SV[k].delivered = 2; // may or may not come up
+			for (int k = 0; k < 2; k++)
+				if (C[k].has && C[k].peer == 0)
+					C[k].gone = 1;
+			Q_fd[0] = vp_attach_more(Q_listener);
+			vs_settle();
+			if (Q_fd[0] < 0 || vp_handshake(Q_fd[0], SP_SURVEYOR) < 0)
+				vs_fail("C07:resp:wrong-peer",
+				    "[%s] a new surveyor could not connect after the old "
+				    "one left",
+				    seq);
+			memset(Q_rd[0], 0, sizeof(vp_rd));
+			vs_settle();
+		} else if (l2 < Q_RECV0) {
 			int   j = l2 / 2, extra = l2 % 2;
 			surv *s = &SV[NSV];
 			s->peer = j;
@@ -772,7 +803,14 @@ run_resp(void *arg)
 				if (rv != 0)
 					nng_msg_free(nng_aio_get_msg(QS[i].aio));
 			}
-			if (!C[i].has) {
+			if (C[i].has && C[i].gone) {
+				// the surveyor has left: the response may be discarded
+				// (any result) but must not reach anybody, and the
+				// survey is consumed all the same
+				C[i].has  = 0;
+				C[i].gone = 0;
+				resp_expect_wire(resp_lname(l2), -1, NULL, 0);
+			} else if (!C[i].has) {
 				if (g_resp_nb && rv == NNG_EAGAIN)
 					// known finding (see known_findings.json): keep
 					// exploring behind it
@@ -809,7 +847,7 @@ run_resp(void *arg)
 			}
 		}
 		resp_check_pending();
-		if (l2 < Q_SEND0)
+		if (l2 < Q_SEND0 || l2 == Q_DROP0)
 			resp_expect_wire(resp_lname(l2), -1, NULL, 0); // nothing unsolicited
 	}
 	vs_log("%s", seq);
